@@ -129,8 +129,8 @@ int yyparse(void);
         char num;
     } decl; /* 5 */
     struct {
-        char num_local;
-        char max_num_locals; 
+        short num_local;      /* MaxLocalVariables may be configured above 127 */
+        short max_num_locals; 
         short context; 
         short save_current_type; 
         short save_exact_types;
@@ -2435,8 +2435,8 @@ expr4:
     |   L_BASIC_TYPE
             {
                 if ($1 != TYPE_FUNCTION) yyerror("Reserved type name unexpected.");
-                $<func_block>$.num_local = (char)current_number_of_locals;
-                $<func_block>$.max_num_locals = (char)max_num_locals;
+                $<func_block>$.num_local = (short)current_number_of_locals;
+                $<func_block>$.max_num_locals = (short)max_num_locals;
                 $<func_block>$.context = (short)context;
                 $<func_block>$.save_current_type = (short)current_type;
                 $<func_block>$.save_exact_types = (short)exact_types;
